@@ -186,7 +186,7 @@ def report(pid, tier, seed, modname, obs, results, bres, meta, t0):
             if not any(v[1] == rp for v in violations):
                 violations.append((b['name'] + ':' + fl.get('clause', 'bounded'), rp, not fl.get('no_input')))
     minimum = meta.get('min_obligations', 1)
-    if n_ob < minimum and not gaps:      # obligations lost to an engine gap are reported as such above
+    if n_ob < minimum and not gaps and not os.environ.get('VERIF_ONLY'):      # obligations lost to an engine gap are reported as such above
         crashes.append(('vacuity', f'only {n_ob} obligations generated, registered minimum is {minimum}'))
     wall = time.time() - t0
     printed = []
